@@ -131,10 +131,46 @@ func runR16(c *Ctx) {
 	case !inLoop(*colLoop, cmp.Block()):
 		c.bad("qframe.New|every column compared", p.instrPos(cmp), "the length comparison is outside the loop that creates the columns: only the last column is compared with the reference, a column of different length in between goes unnoticed (and later operations index out of range)")
 	default:
+		// an iteration may skip the comparison only where it (re)defines the reference length itself (`if i == 0 {
+		// firstLen = currentLen } else if firstLen != currentLen {...}`): blocks on the `i == 0` side of a test of
+		// the loop counter against 0
+		isRefDef := func(b *ssa.BasicBlock) bool {
+			for _, g := range dominatingGuards(b) {
+				bo, ok := g.Cond.(*ssa.BinOp)
+				if !ok || bo.Op != token.EQL && bo.Op != token.NEQ {
+					continue
+				}
+				if k, isK := constInt(bo.Y); isK && k == 0 && (bo.Op == token.EQL) == g.Val {
+					if colLoop.key != nil && (bo.X == colLoop.key || stripConvInt(bo.X) == colLoop.key) {
+						return true
+					}
+					if phi, ok := bo.X.(*ssa.Phi); ok && phi.Block() == colLoop.header {
+						return true
+					}
+				}
+			}
+			return false
+		}
 		okC := true
 		for _, pred := range colLoop.header.Preds {
-			if colLoop.header.Dominates(pred) && !(cmp.Block() == pred || cmp.Block().Dominates(pred)) {
-				okC = false
+			if !colLoop.header.Dominates(pred) {
+				continue
+			}
+			// every path from the body to this latch passes the comparison or a reference definition
+			for _, succ := range colLoop.header.Succs {
+				if !inLoop(*colLoop, succ) || succ == colLoop.header {
+					continue
+				}
+				for _, rb := range reachableAvoiding(succ, func(b *ssa.BasicBlock) bool {
+					return b == cmp.Block() || isRefDef(b) || b == colLoop.header || !inLoop(*colLoop, b)
+				}) {
+					if rb == pred {
+						okC = false
+					}
+				}
+			}
+			if cmp.Block() == pred {
+				continue
 			}
 		}
 		if okC {
